@@ -275,6 +275,29 @@ def replay_loop(args):
     return []
 
 
+def rec_scale(seed):
+    """the same galaxy in other flux units (exact power-of-two factors, down to ~1e-21 and up to ~1e12): the fitted geometry is the same
+    and the intensities scale"""
+    from photutils.isophote import Ellipse, EllipseGeometry
+    warnings.simplefilter('ignore')
+    rng = random.Random(seed)
+    eps, pa, law = rng.choice([0.15, 0.35]), rng.uniform(0.3, 2.8), rng.choice(['exp', 'gauss', 'sersic'])
+    img = galaxy(eps, pa, law, 45.3, 44.6)
+    k = rng.choice([2.0 ** -70, 2.0 ** -50, 2.0 ** 40])
+    mode = rng.choice(['bilinear', 'nearest_neighbor', 'median'])
+    fit = lambda im: Ellipse(im, EllipseGeometry(45.8, 44.2, 10.0, eps + 0.05, pa + 0.1)).fit_image(sma0=10.0, minsma=4.0, maxsma=30.0, step=0.2, integrmode=mode)  # noqa
+    a, b = fit(img), fit(img * k)
+    dev = 0.0
+    if len(a) != len(b) or len(a) == 0:
+        dev = 10.0
+    else:
+        for i, j in zip(a, b):
+            dev = max(dev, abs(i.sma - j.sma), abs(i.x0 - j.x0), abs(i.y0 - j.y0), abs(i.eps - j.eps), abs(i.pa - j.pa), abs(j.intens / k - i.intens) / abs(i.intens),
+                      float(i.stop_code != j.stop_code))
+    return {'id': 3 * 10**7 + seed, 'kind': 'scale', 'maxdev': int(round(min(dev, 10.0) * 10**6)), 'params': {'law': law, 'mode': 'scale:' + mode, 'eps': int(eps * 100), 'fix': 'none', 'pa': 1},
+            'factor_log2': int(round(math.log2(k))), 'n': [len(a), len(b)]}
+
+
 def rec_polar(seed):
     from photutils.isophote import EllipseGeometry
     rng = random.Random(seed)
@@ -366,6 +389,7 @@ def run(ctx):
     lat = near[: nq - nq // 4 - nq // 8 - nq // 12] + perp[: nq // 4] + edge[: nq // 8] + large[: nq // 12] + lingeo[: nq // 16]
     recs = core.pmap(rec_fit, list(enumerate(lat)), chunksize=1, on_raise='drop')
     recs += [rec_polar(ctx.seed * 100 + k) for k in range(40 if q else 400)]
+    recs += core.pmap(rec_scale, [ctx.seed * 911 + k for k in range(16 if q else 160)], procs=16, chunksize=1, on_raise='drop')
     ver = core.validate_batch(ctx, 'Trace_Iso', recs, 'Trace:Iso')
     for r in recs:
         v = ver[r['id']]
